@@ -110,6 +110,9 @@ def replay_apply(w):
 
 # ------------------------------------------------------------------ W7 episodes
 
+ARM_USE = {}
+
+
 def signature(sh):
     return frozenset(S.bigrams(sh))
 
@@ -142,15 +145,19 @@ class Episode:
         if not cands:
             return None
         if self.policy == "novelty":
-            best = None
-            for _ in range(4):
+            # prefer the (rule, classification arm, parent kind) that this process has applied
+            # least often so far: rare arms and rare contexts get their share of the steps
+            best, best_n = None, None
+            for _ in range(6):
                 label, rule, nodes = self.rng.choice(cands)
                 node = self.rng.choice(nodes)
-                best = best or (label, rule, node)
-                # prefer rules not used yet in this episode
-                if label not in self.rules_used:
-                    best = (label, rule, node)
+                key = (label, MR.type_tag(rule, node), S.kind(node.parent) if node.parent is not None else "root")
+                n = ARM_USE.get(key, 0)
+                if best is None or n < best_n:
+                    best, best_n, best_key = (label, rule, node), n, key
+                if n == 0:
                     break
+            ARM_USE[best_key] = ARM_USE.get(best_key, 0) + 1
             label, rule, node = best
         else:
             label, rule, nodes = self.rng.choice(cands)
